@@ -49,6 +49,7 @@ theorem enc_dec_good (env : Env) (hv : env.valid = true) (hc : CustomsGood env) 
         exact good_sint b _ (by omega)
       | int => exact good_int _
       | nzint => exact good_nzint _
+      | posCoin => exact good_posCoin _
       | bytes => exact good_bytes _
       | hash n => exact good_hash n _
       | text => exact good_text _
